@@ -278,6 +278,13 @@ class Interp(object):
       if isinstance(node.value, ast.Name) and node.value.id == 'self':
         obj = fr['env']['self']
         if node.attr not in obj.attrs:
+          const = getattr(obj.cls, node.attr, None)            # class-level numeric constant
+          if isinstance(const, bool):
+            return const
+          if isinstance(const, int):
+            return z3.IntVal(const)
+          if isinstance(const, float) and const == const and abs(const) != float('inf'):
+            return z3.RealVal(repr(const))
           raise Unsupported('unknown attribute self.%s' % node.attr)
         return obj.attrs[node.attr]
       raise Unsupported('attribute %s' % ast.unparse(node))
